@@ -94,6 +94,8 @@ SCRIPTS = {
     # graded through the VPL environment (its resolver prints "Grade :=>> N" scaled by a maximum score the script may set)
     "vplmax@vpl": ("from pedal import *\nfrom pedal.environments.vpl import set_maximum_score\nset_maximum_score(100)\nset_success()\nresolve()\n"),
     "vplplain@vpl": ("from pedal import *\nset_success()\nresolve()\n"),
+    "gsmax@gs": ("from pedal import *\nfrom pedal.environments.gradescope import set_maximum_score\nset_maximum_score(50)\nset_success()\nresolve()\n"),
+    "gsplain@gs": ("from pedal import *\nset_success()\nresolve()\n"),
     # calls a METHOD of an object the student's function returned (student code running after the sandbox call returned)
     "greeter": ("from pedal import *\nsuppress('algorithmic', 'unused_variable')\ngreeter = call('make_greeter')\nassert_equal(greeter.greet(), 'Hello!')\n"),
     "raiser_b": ("from pedal import *\ndef broken(x):\n    return int('not a number (script B)')\n"
@@ -122,10 +124,16 @@ def next_pool_position(R):
 
 
 def grade_vpl(script_id, sub_id):
-    """One grading through the VPL environment (constructed directly, as a VPL evaluate script does)."""
+    """One grading through the VPL (or GradeScope) environment, constructed directly as its evaluate script does."""
     import io
     from contextlib import redirect_stdout
-    from pedal.environments.vpl import VPLEnvironment
+    if script_id.endswith("@gs"):
+        from pedal.environments.gradescope import GradeScopeEnvironment
+
+        def VPLEnvironment(**kw):
+            return GradeScopeEnvironment(threaded=False, trace=False, **kw)
+    else:
+        from pedal.environments.vpl import VPLEnvironment
     captured = io.StringIO()
     out = {"error": None, "label": None, "title": None, "message": None, "correct": None, "score": None, "student_output": None}
     with redirect_stdout(captured):
@@ -142,7 +150,7 @@ def grade_vpl(script_id, sub_id):
 
 def grade(script_id, sub_id):
     """One grading in this process; returns the projected result."""
-    if script_id.endswith("@vpl"):
+    if script_id.endswith(("@vpl", "@gs")):
         return grade_vpl(script_id, sub_id)
     from pedal.command_line.modes import Bundle
     from pedal.core.submission import Submission
